@@ -132,6 +132,9 @@ class Crate:
             for idx in self._attribute(m):
                 bad.add(idx)
                 hit = True
+                if not hasattr(self, "reasons"):
+                    self.reasons = {}
+                self.reasons.setdefault(idx, (m.get("message") or "")[:300])
             if not hit and "aborting due to" not in m.get("message", "") and "could not compile" not in m.get("message", ""):
                 unattributed.append(m.get("rendered") or m.get("message"))
         ok = r.returncode == 0
